@@ -30,7 +30,7 @@ type Case struct {
 
 func draw(t *rapid.T) Case {
 	c := Case{H: sb.HSpecGen(1, 4).Draw(t, "header")}
-	opt := sb.RecOpt{NRefs: len(c.H.Refs), Valid: true, MaxAux: 6}
+	opt := sb.RecOpt{NRefs: len(c.H.Refs), Valid: true, MaxAux: 6, BigSizes: true} // lines longer than bufio's 4096-byte buffer and than 64 KiB included
 	c.Recs = rapid.SliceOfN(sb.RecGen(opt), 1, 6).Draw(t, "recs")
 	c.FlagFmt = rapid.IntRange(0, 1).Draw(t, "flagfmt")
 	c.CRLF = rapid.Bool().Draw(t, "crlf")
@@ -217,7 +217,10 @@ func run(c Case, rec *h.Rec) {
 		}
 		in.Write(text)
 	}
+	longLine, hugeLine := false, false
 	for i, l := range lines {
+		longLine = longLine || len(l) > 4096
+		hugeLine = hugeLine || len(l) > 65536
 		in.WriteString(l)
 		if i < len(lines)-1 || c.FinalNewline {
 			in.WriteString(nl)
@@ -254,6 +257,8 @@ func run(c Case, rec *h.Rec) {
 		return
 	}
 	rec.ClassIf(c.CRLF, "crlf")
+	rec.ClassIf(longLine, "line_longer_than_4096_bytes")
+	rec.ClassIf(hugeLine, "line_longer_than_64KiB")
 	rec.ClassIf(!c.FinalNewline, "no_final_newline")
 	rec.ClassIf(c.FlagFmt == 1, "hex_flags")
 	rec.ClassIf(!c.WithHeader, "reader_without_header_lines")
